@@ -49,7 +49,7 @@ type CPPlan struct {
 	Split       int      `json:"split,omitempty"` // functions with index >= Split (when > 0) live in a second file of the package
 }
 
-var cpSiteKinds = []string{"helper-div", "helper-attr", "local-div", "idx-slice", "idx-string", "slice-bounds", "div", "mod", "nil-set", "nil-get", "nil-method", "nil-map", "nil-func", "panic", "native", "for-cond", "range-bad"}
+var cpSiteKinds = []string{"helper-div", "helper-attr", "local-div", "idx-slice", "idx-string", "slice-bounds", "div", "mod", "nil-set", "nil-get", "nil-method", "nil-map", "nil-func", "panic", "native", "for-cond", "range-bad", "div-ml", "idx-ml", "nil-map-ml"}
 
 type cpSite struct {
 	Func int
@@ -231,6 +231,18 @@ func cpRender(p *CPPlan) *cpRendered {
 				site(fmt.Sprintf("r = r + 100 / host.Den(%d)", id))
 			case "mod":
 				site(fmt.Sprintf("r = r + 100 %% host.Den(%d)", id))
+			case "div-ml":
+				// the operator ends its line, the operand that makes it fail stands on the next one:
+				// the failing operation is the operator
+				site(fmt.Sprintf("r = r + 100 /"))
+				emit(ind + fmt.Sprintf("\thost.Den(%d)", id))
+			case "idx-ml":
+				site(fmt.Sprintf("r = r + arr["))
+				emit(ind + fmt.Sprintf("\thost.Idx(%d)]", id))
+			case "nil-map-ml":
+				site(fmt.Sprintf("selM(host.Flag(%d))[\"k\"] =", id))
+				emit(ind + "\t1 +")
+				emit(ind + "\t2")
 			case "local-div":
 				// both operands plain locals: the optimizer fuses LOCALGET LOCALGET DIV
 				emit(ind + fmt.Sprintf("w%d := 100", id))
